@@ -48,7 +48,8 @@ func (p Params) Validate() error {
 
 	entSigners := strings.Split(p.EntSigners, ",")
 
-	if len(entSigners) < int(p.MinAccepts) {
+	// compare as uint64: int(p.MinAccepts) is negative for values >= 2^63
+	if uint64(len(entSigners)) < p.MinAccepts {
 		return fmt.Errorf("number of authorised accounts must be >= number of minimum accepts")
 	}
 
